@@ -36,6 +36,12 @@ EXPLANATION = (
     "never overwritten otherwise; the bound test against machine[xy]"
     "[resource] dominates the exit; afterwards pointer := proposal.stop; "
     "pointers are re-created per chip.")
+EXPLANATION += (
+    " R4 also checks the machine model the bound is read from: "
+    "Machine.__getitem__ is <exceptions>.get(xy, <defaults>) and "
+    "__setitem__ stores under that key on every normal path. R2 recognises "
+    "dict(global).update(chip table) as replacing, not concatenating, the "
+    "lists scanned.")
 NOT_DECIDED = [
     "'always succeeds on a feasible placement without alignment and with "
     "reservations only at the ends' (completeness of the greedy scan)",
